@@ -503,12 +503,15 @@ func c01(p *core.Prog, res *core.Result) {
 		"(every adjacency step derives one traveler per neighbour from the same input traveler, so any sharing makes sibling rows alias each other); " +
 		"O2 no step of the C01 alphabet writes into an element reachable from its input traveler (jsonpath.TravelerSetValue is applied only to a traveler whose current element and marks are private copies); " +
 		"O3 dispatch totality — every GraphStatement oneof member has an arm in the compiler and in the step inspector, every compile arm returns an error or a processor, every result type has an arm in Convert; " +
-		"O4 bound arithmetic — limit, skip and range forward the received traveler unchanged, count every non-signal row once, and their forwarding predicate over all orderings of (row index, bounds) equals the documented one."
+		"O4 bound arithmetic — limit, skip and range forward the received traveler unchanged, count every non-signal row once, and their forwarding predicate over all orderings of (row index, bounds) equals the documented one; " +
+		"O5 a boolean that summarises a loop over keys/labels/values and is read after the loop is never overwritten on every iteration by an expression that ignores its previous value (last-item-wins)."
 	res.NotDecided = []string{"row-multiset equality for the moving, filtering and projecting steps: label filtering, field resolution, adjacency direction", "a swapped From/To or a dropped label filter is invisible to this check"}
 	res.Rule("O1", "traveler constructors: no store through the receiver, fresh Marks map and Path slice", 3)
 	res.Rule("O2", "steps write only into private copies of elements", 1)
 	res.Rule("O3", "statement/type dispatch totality", 60)
 	res.Rule("O4", "limit/skip/range arithmetic over all orderings", 3)
+	res.Rule("O5", "a boolean that summarises a loop and is read after it is set one way (constant) or depends on its previous value (engine/core, engine/logic, jsonpath)", 3)
+	c01flags(p, res, c01flagFuncs(p), "O5")
 
 	fresh := map[string]travelerFreshness{}
 	for _, name := range []string{"AddCurrent", "AddMark", "Copy"} {
@@ -787,7 +790,14 @@ func c01selftest(st *core.Prog, res *core.Result) {
 		}
 		got := core.Discharged
 		tmp := core.NewResult("C01", "self")
-		if strings.Contains(name, "Limit") {
+		if strings.Contains(name, "Flag") {
+			c01flags(st, tmp, []*core.FuncInfo{fi}, "O5")
+			for _, o := range tmp.Obls {
+				if o.Status != core.Discharged {
+					got = core.Violated
+				}
+			}
+		} else if strings.Contains(name, "Limit") {
 			boundedStep(st, tmp, fi, "O4", []string{"i", "n"}, map[string]string{"count": "n"}, nil,
 				func(e ordEnv) bool { return e["i"] < e["n"] }, "row index < limit")
 			for _, o := range tmp.Obls {
